@@ -403,14 +403,56 @@ func (g *gen) tx(prod bool) *types.Transaction {
 		}
 		t.Sign = common.BytesToSign(b)
 	}
-	switch g.r.Intn(5) {
+	switch g.r.Intn(6) {
 	case 0:
 		t.SubTransactions = []types.UserData{}
 	case 1:
 		t.SubTransactions = []types.UserData{{Address: g.u64(), Assets: map[string]string{"a": "1", "b": "<x>"}},
 			{Address: 1, TransferData: types.TransferData{Balance: "12.5", Coin: map[string]string{"ETH": "1"}}}}
+	case 2:
+		n := 1 + g.r.Intn(3)
+		for i := 0; i < n; i++ {
+			t.SubTransactions = append(t.SubTransactions, g.userData(prod))
+		}
 	}
 	return t
+}
+
+func (g *gen) jsonStr(prod bool) string {
+	if prod { // strings that came out of json.Unmarshal are valid UTF-8
+		return []string{"", "a", "0x12", "1.5", "<&>", "\"q\"", "back\\slash", "tab\tnl\n", "\u00e9\u20ac", "\U0001F600", "\u2028", "del\x7f", "nul\x00",
+			"k" + strconv.Itoa(g.r.Intn(50))}[g.r.Intn(14)]
+	}
+	return []string{"", "a", "0x12", "1.5", "<&>", "\"q\"", "back\\slash", "tab\tnl\n", "\u00e9\u20ac", "\U0001F600", "\u2028", "del\x7f", "nul\x00",
+		"bad\xffutf8", "\xc3", "k" + strconv.Itoa(g.r.Intn(50))}[g.r.Intn(16)]
+}
+
+func (g *gen) strMap(prod bool) map[string]string {
+	switch g.r.Intn(4) {
+	case 0:
+		return nil
+	case 1:
+		return map[string]string{}
+	}
+	m := map[string]string{}
+	for n := 1 + g.r.Intn(3); n > 0; n-- {
+		m[g.jsonStr(prod)] = g.jsonStr(prod)
+	}
+	return m
+}
+
+func (g *gen) userData(prod bool) types.UserData {
+	u := types.UserData{Address: g.u64(), TransferData: types.TransferData{Balance: g.jsonStr(prod), Coin: g.strMap(prod), FT: g.strMap(prod)},
+		Assets: g.strMap(prod)}
+	if prod { // what json.Unmarshal leaves: omitted (empty) maps are nil
+		if len(u.Coin) == 0 {
+			u.Coin = nil
+		}
+		if len(u.FT) == 0 {
+			u.FT = nil
+		}
+	}
+	return u
 }
 
 func (g *gen) txs(prod bool) []*types.Transaction {
